@@ -106,6 +106,40 @@ Example C07_stage4_premises :
   parse false (render e) = Some (tree_of e) /\ parse true (render e) = Some (tree_of e).
 Proof. vm_compute. repeat split; reflexivity. Qed.
 
+(* PARTIAL (stage 5).  Fragment [frag5] = every constructor of [expr] except casts, i.e. stage 4 + the
+   conditional operator ('?' takes ':' as its second operand; the else branch is parsed by the recursion of ':'
+   - the C++ grouping  a ? b : c = d  ->  a ? b : (c = d) ; the assign counter is reset inside '?').
+   Additional premises for ?: :
+   - [mid_ok e]: the middle operand of every ?: is not a comma expression and, if it is an assignment or
+     conditional expression, contains no '?';
+   - prepareTernaryOpForAST leaves the rendering unchanged (it inserts parentheses around a middle operand that
+     has a , < or ? outside brackets; that case is exercised by the correspondence run only).
+   Missing for the full language: those middle operands, and casts (iscast is not modelled). *)
+Theorem C07_parse_render_stage5_partial :
+  forall (cpp : bool) (e : expr),
+    frag5 e = true -> wf e = true -> labels_ok e = true -> mid_ok e = true ->
+    decl_like (render e) = false ->
+    prep (2 * length (render e ++ [semi])) (render e ++ [semi]) = render e ++ [semi] ->
+    parse cpp (render e) = Some (tree_of e).
+Proof. exact parse_render_stage5. Qed.
+Print Assumptions C07_parse_render_stage5_partial.
+
+(* the premises are inhabited:
+   r = a ? b + 1 : c ? - d : a = 2 , b = p [ 0 ] ? q = f ( 1 ) : ( a , b ) ? 3 : s . x ++ *)
+Example C07_stage5_premises :
+  let e := canon
+    (EComma 0
+       (EAsg 0 AEq (EId 0 14)
+          (ECond 0 0 (EId 0 0) (EBin 0 BAdd (EId 0 1) (ENum 0 1))
+             (ECond 0 0 (EId 0 2) (EPre 0 PMinus (EId 0 3)) (EAsg 0 AEq (EId 0 0) (ENum 0 2)))))
+       (EAsg 0 AEq (EId 0 1)
+          (ECond 0 0 (EIdx 0 (EId 0 4) (ENum 0 0)) (EAsg 0 AEq (EId 0 5) (ECall 0 (EId 0 8) (ENum 0 1)))
+             (ECond 0 0 (EPar 0 (EComma 0 (EId 0 0) (EId 0 1))) (ENum 0 3) (EPost 0 QInc (EMem 0 0 (EId 0 6) 11)))))) in
+  frag5 e = true /\ wf e = true /\ labels_ok e = true /\ mid_ok e = true /\ decl_like (render e) = false /\
+  prep (2 * length (render e ++ [semi])) (render e ++ [semi]) = render e ++ [semi] /\
+  parse false (render e) = Some (tree_of e) /\ parse true (render e) = Some (tree_of e).
+Proof. vm_compute. repeat split; reflexivity. Qed.
+
 (* r = d + ( a * f ( b , c ) )   with every identifier a declared variable (f: a function pointer).
    Before fix 7d6f057 (skipDecl) this well-formed expression refuted the full statement; with the model
    following the repaired code it is parsed to the grammar's tree in C and C++ mode. *)
